@@ -107,7 +107,9 @@ contract(
     # data invariant: a membership list stored on a node is never empty (so max() of the last node's list is defined)
     heap_invariants=['fragid'],
     ensures=(_corr_facts("n_nodes(target_graph)", _OFF, "result") + _node_facts("n_nodes(target_graph)", _OFF, _FOFF)
-             + _edge_facts("n_edges(target_graph)", _OFF)),
+             + _edge_facts("n_edges(target_graph)", _OFF)
+             + ["forall_int(lambda n: implies(has_node(target_graph, n), n in result and has_node(source_graph, result[n]) and "
+                "result[n] == " + _OFF + " + 1 + node_index(target_graph, n)))"]),
     modifies=["source_graph"],
     loops={
         0: Loop(over='enumerate(target_graph.nodes(), start=offset + 1)',
